@@ -163,6 +163,27 @@ func cyclePrograms(r *rng.R, k int) []cycleCase {
 			defs = append(defs, &Def{Kind: 'T', Name: name("T", i), Ty: wrapType(r, tref(name("T", i+1)))})
 		}
 		add(oneFile(defs...), fmt.Sprintf("typedef cycle len %d", n), "")
+		// the same cycle with a value that has to be cast to one of its types while linking,
+		// i.e. before the cycle check runs: a constant, a constant of a container of it, a field default
+		for variant := 0; variant < 3; variant++ {
+			var ds []*Def
+			for i := 0; i < n; i++ {
+				ds = append(ds, &Def{Kind: 'T', Name: name("T", i), Ty: tref(name("T", i+1))})
+			}
+			one := &CV{Kind: 'i', I: 1}
+			switch variant {
+			case 0:
+				ds = append(ds, &Def{Kind: 'C', Name: "c", Ty: tref(name("T", r.Intn(n))), Val: one})
+			case 1:
+				ds = append(ds, &Def{Kind: 'C', Name: "c", Ty: &TExpr{Kind: "list", A: tref(name("T", r.Intn(n)))}, Val: &CV{Kind: 'l', L: []*CV{one}}})
+			case 2:
+				ds = append(ds, &Def{Kind: 'S', SKind: 's', Name: "Holder", Fields: []*Field{{ID: i64p(1), Name: "f", Req: 'o', Ty: tref(name("T", r.Intn(n))), Dflt: one}}})
+			}
+			if r.Bool() { // the value first, the cycle after it
+				ds = append(ds[n:], ds[:n]...)
+			}
+			add(oneFile(ds...), fmt.Sprintf("typedef cycle len %d with a value cast to it (%d)", n, variant), "")
+		}
 		// typedef -> … -> struct -> typedef: legal recursion through a struct. One order of
 		// linking leaves a nil root (D10, a C07 finding); for C08 only termination matters.
 		defs = nil
